@@ -66,6 +66,9 @@ func validateRun(cmd *cobra.Command, args []string) error {
 	}
 
 	// Handle stdin input
+	if err := rejectInputsNextToStdin(args); err != nil {
+		return err
+	}
 	if ShouldReadFromStdin(args) {
 		return validateFromStdin(cmd)
 	}
